@@ -174,11 +174,11 @@ def cases(draw, fmts, switches, force_skip_half=False):
     if fmt == "hrs":
         spec = draw(gi.hrs_spec(options=True, even_width="hrs_even_width" in switches, small=draw(st.integers(0, 9)) > 0))
         if force_skip and "skip" not in spec:
-            spec["skip"] = draw(st.integers(1, 40))
+            spec["skip"] = max(1, draw(gi.skip_counts))
     elif fmt == "max":
         spec = draw(gi.max_spec(options=True, width_mult8="max_width_mult8" in switches))
         if force_skip and "skip" not in spec:
-            spec["skip"] = draw(st.integers(1, 40))
+            spec["skip"] = max(1, draw(gi.skip_counts))
     elif fmt == "pix":
         spec = draw(gi.pix_spec())
     elif fmt == "mge":
